@@ -277,6 +277,13 @@ class ConditionValueExpression(ParentChainMixin):
     value: SigmaType
 
 
+# Operators are keywords: they only match whole words, so that identifiers beginning with
+# an operator name (e.g. "notepad", "android", "orange") are not split into operator + rest.
+_identifier_chars = alphanums + "_-*"
+_op_not = Keyword("not", ident_chars=_identifier_chars)
+_op_and = Keyword("and", ident_chars=_identifier_chars)
+_op_or = Keyword("or", ident_chars=_identifier_chars)
+
 identifier = Word(alphanums + "_-")
 identifier.set_parse_action(ConditionIdentifier.from_parsed)
 
@@ -289,9 +296,9 @@ operand = selector | identifier
 condition = infix_notation(
     operand,
     [
-        ("not", 1, opAssoc.RIGHT, ConditionNOT.from_parsed),
-        ("and", 2, opAssoc.LEFT, ConditionAND.from_parsed),
-        ("or", 2, opAssoc.LEFT, ConditionOR.from_parsed),
+        (_op_not, 1, opAssoc.RIGHT, ConditionNOT.from_parsed),
+        (_op_and, 2, opAssoc.LEFT, ConditionAND.from_parsed),
+        (_op_or, 2, opAssoc.LEFT, ConditionOR.from_parsed),
     ],
 )
 
